@@ -1,10 +1,10 @@
 #!/bin/sh
-# tools/import_seed.sh <Cxx> <n>: take a seeder's deliverables from /tmp/seedwt/<Cxx>-out into seeded/<Cxx>-<n>/ and remove its worktree
+# tools/import_seed.sh <Cxx> <n>: take a seeder's deliverables from $B/<Cxx>-out into seeded/<Cxx>-<n>/ and remove its worktree
 set -e
-P=$1; N=$2; D=/verif/seeded/$P-$N
+P=$1; N=$2; B=${3:-/tmp/seedwt}; D=/verif/seeded/$P-$N
 mkdir -p $D
-cp /tmp/seedwt/$P-out/patch.diff /tmp/seedwt/$P-out/demo.py /tmp/seedwt/$P-out/meta.json $D/
-git -C /repo worktree remove --force /tmp/seedwt/$P 2>/dev/null || true
-rm -rf /tmp/seedwt/$P /tmp/seedwt/$P-out
+cp $B/$P-out/patch.diff $B/$P-out/demo.py $B/$P-out/meta.json $D/
+git -C /repo worktree remove --force $B/$P 2>/dev/null || true
+rm -rf $B/$P $B/$P-out
 git -C /repo worktree prune
 echo imported $D
